@@ -193,8 +193,8 @@ static void check_raw(const std::string& e, bool valid, const Cps& cps) {
 			if (!t2 && (r2 < 0 || r2 > 4 * m || b8.p[r2] != 0)) bad("utf32toUtf8_result", fmt("utf32toUtf8(%s, n=%d) returned %d: not a terminated result inside 4n+1 bytes", arr_str(i32.p, m).c_str(), m, r2));
 			else if (!t2 && valid && std::string(b8.p, r2) != e) bad("utf32_roundtrip", "UTF-8 -> UTF-32 -> UTF-8 of " + show(e) + " gave " + show(std::string(b8.p, r2)));
 		}
-		if (!t && L >= 1 && L <= 8 && !(g_skip_nbeyond3 && L == 3) && r >= 0 && (size_t)r <= L) { // n beyond the text (the unit test's shape): the terminator, not n, must end the conversion: same result in the same L+1 elements
-			Out<int> ob(L + 1);
+		if (!t && L >= 1 && L <= 8 && !(g_skip_nbeyond3 && L == 3) && r >= 0 && (size_t)r <= L) { // n beyond the text (the unit test's shape): the terminator, not n, must end the conversion: same result.  The output buffer
+			Out<int> ob(L + 8);                   // has the n+1 elements every caller in asl (and the unit test) provides for a limit n: what lies behind the terminator inside them is the function's business; the INPUT block still ends at the NUL
 			int rb = utf8toUtf32(in.p, ob.p, (int)L + 7);
 			vf::add(W_N_BEYOND);
 			if (!trip("utf8toUtf32", e) && (rb != r || memcmp(ob.p, o.p, ((size_t)r + 1) * sizeof(int)) != 0))
@@ -241,8 +241,8 @@ static void check_raw(const std::string& e, bool valid, const Cps& cps) {
 					if (valid && ((size_t)rk > L || memcmp(bk.p, e.data(), rk) != 0)) { bad("utf16toUtf8_value", fmt("utf16toUtf8 of the %d units made from %s with n=%d gave ", m, show(e).c_str(), k) + show(std::string(bk.p, rk)) + ": not a prefix of the text"); break; }
 				}
 		}
-		if (!t && L >= 1 && L <= 8 && !(g_skip_nbeyond3 && L == 3) && r >= 0 && (size_t)r <= L) { // n beyond the text: same result in the same L+1 units
-			Out<wchar_t> wb(L + 1);
+		if (!t && L >= 1 && L <= 8 && !(g_skip_nbeyond3 && L == 3) && r >= 0 && (size_t)r <= L) { // n beyond the text: same result, in a buffer of the n+1 units a caller owes for the limit n
+			Out<wchar_t> wb(L + 8);
 			int rb = utf8toUtf16(in.p, wb.p, (int)L + 7);
 			if (!trip("utf8toUtf16", e) && (rb != r || memcmp(wb.p, w.p, ((size_t)r + 1) * sizeof(wchar_t)) != 0))
 				bad("utf8toUtf16_result", fmt("utf8toUtf16(%s, n=%d) returned %d, but %d with n=%d: a limit beyond the terminator changed the result", show(e).c_str(), (int)L + 7, rb, r, (int)L));
